@@ -148,6 +148,8 @@ def wave_body(ctx, case):
 def custom_strategy(draw, ctx):
     n = draw(st.integers(2, 12))
     sig = [draw(st.integers(-3000, 3000)) / 1000.0 for _ in range(n)]
+    if draw(st.integers(0, 4)) == 0:  # a signal given as plain integers (integer dtype array) is a sampled signal too
+        sig = [draw(st.integers(-5, 5)) for _ in range(n)]
     dyadic = (not ctx.f64) or draw(st.booleans())
     if dyadic:
         spacing = float(draw(st.sampled_from([1, 3, 5, 7]))) * 2.0 ** draw(st.integers(-62, -36))
